@@ -244,7 +244,7 @@ pub fn main_loop(progs: &[(&str, Factory)]) {
             // `runp`: the Lean side evaluates the same program with the physical-index engine model (Model/EnginePhys.lean);
             // for the real code both are `run()`
             // `runpp <inst> <threads>`: the Lean side is the parallel physical-index engine model; the real instance runs in its own pool
-            "run" | "runp" | "runpp" | "runpl" => {
+            "run" | "runp" | "runpp" | "runpl" | "runppl" => {
                insts.get_mut(toks.get(2)?.atom()?)?.run();
                Some("ok".into())
             },
